@@ -244,6 +244,10 @@ func Run(r *vk.Run) {
 	for i := 0; i < r.N(300, 4000); i++ {
 		live = append(live, genLive(rng, n+i, r.Quick()))
 	}
+	var loopCases []LoopCase
+	for i := 0; i < r.N(24, 300); i++ {
+		loopCases = append(loopCases, genLoop(rng, n+5000+i))
+	}
 	var wg sync.WaitGroup
 	ch := make(chan any)
 	for w := 0; w < 14; w++ {
@@ -256,6 +260,8 @@ func Run(r *vk.Run) {
 					r.Guard(c, func() { run(r, c) })
 				case LiveCase:
 					r.Guard(c, func() { runLive(r, c) })
+				case LoopCase:
+					r.Guard(c, func() { runLoop(r, c) })
 				}
 			}
 		}()
@@ -264,6 +270,9 @@ func Run(r *vk.Run) {
 		ch <- c
 	}
 	for _, c := range live {
+		ch <- c
+	}
+	for _, c := range loopCases {
 		ch <- c
 	}
 	close(ch)
